@@ -269,6 +269,17 @@ func ScanRepositoryUsingGraph(
 		return HistorySize{}, err
 	}
 
+	// All of the requested objects have been read. Make sure that
+	// nothing else is coming and that the pipeline finished
+	// successfully:
+	_, ok, err := objectIter.Next()
+	if err != nil {
+		return HistorySize{}, err
+	}
+	if ok {
+		return HistorySize{}, errors.New("more objects read than expected")
+	}
+
 	progressMeter.Start("Processing references: %d")
 	for _, root := range roots {
 		progressMeter.Inc()
